@@ -74,7 +74,8 @@ def lock_facts(reg):
     call_blk = after[m2.end():match_brace(after, m2.end() - 1) - 1]
     if "f.call(" not in call_blk.replace(" ", "").replace("\n", "").replace(".call(", ".call(") and ".call(" not in call_blk:
         raise ExtractError("dispatch_with_ctx: call branch does not call")
-    if len(acq.findall(after)) != 1: raise ExtractError("dispatch_with_ctx: more than one lock acquisition after the lookup")
+    # dangerous form, not an extraction failure: more lock acquisitions after the lookup = the write is not one section
+    n_acq_after = len(acq.findall(after))
     wr = after[w:]
     mut = min([i for i in (wr.find("set_pointer("), wr.find("ensure_object_root(")) if i >= 0], default=-1)
     if mut < 0: raise ExtractError("dispatch_with_ctx: no mutation after write_state")
@@ -82,7 +83,9 @@ def lock_facts(reg):
     recheck = re.search(r"state\s*\.\s*functions\s*\.\s*(get|contains_key)\(\s*key\.as_ref\(\)\s*\)", head) is not None
     if recheck and ".call(" not in wr:
         raise ExtractError("dispatch_with_ctx: function map re-read under the write lock but no call follows")
-    return single, read_single, recheck
+    # the only legitimate early release is the one before calling a callable found by the re-check
+    write_single = n_acq_after == 1 and after.count("drop(state)") <= (1 if recheck else 0)
+    return single, read_single, recheck, write_single
 
 
 def map_sorted():
@@ -144,10 +147,10 @@ def shape_facts(reg):
 
 def extract():
     reg = test_mod_cut(strip(read("src/registry.rs")))
-    single, read_single, recheck = lock_facts(reg)
+    single, read_single, recheck, write_single = lock_facts(reg)
     shape = shape_facts(reg)
     return {"bodyFormats": body_formats(), "shape": shape, "errorCodes": error_codes(), "registryErrorCode": variant_table(reg), "singleSection": single,
-            "readDispatchSingleSection": read_single, "lookupThenWriteLock": True,
+            "readDispatchSingleSection": read_single, "lookupThenWriteLock": True, "writeSectionSingle": write_single,
             "recheckUnderWriteLock": recheck, "mapSorted": map_sorted()}
 
 
@@ -167,6 +170,8 @@ def render(f):
          f"def readDispatchSingleSection : Bool := {lb(f['readDispatchSingleSection'])}",
          "/-- body-bearing dispatch: function map read in its own read-lock block, then the write lock -/",
          f"def lookupThenWriteLock : Bool := {lb(f['lookupThenWriteLock'])}",
+         "/-- after the lookup the write lock is taken exactly once and held over the whole mutation -/",
+         f"def writeSectionSingle : Bool := {lb(f['writeSectionSingle'])}",
          "/-- the write-lock region looks the function map up again before mutating -/",
          f"def recheckUnderWriteLock : Bool := {lb(f['recheckUnderWriteLock'])}",
          "/-- serde_json is built without `preserve_order`: `Map` is a `BTreeMap` -/",
